@@ -163,6 +163,7 @@ class ATuple:
         return ("tuple",) + tuple(vkey(i) for i in self.items)
 
 
+_GET_TERMS = set()  # keys of d[k] terms that were written d.get(k): `... is None` on them is the membership test
 _RECORD_NAMES = {}  # key of a record value -> its field names (a record that went through a conditional keeps its fields)
 
 
@@ -379,6 +380,14 @@ def g_cmp(op, a, b, keys=False):
         return TRUE
     if ka == kb and op in ("!=", "<", ">", "is not"):
         return FALSE
+    if op in ("==", "is") and (ka == ("const", "None") or kb == ("const", "None") or key_atom(ka) == ("val", ("const", "None")) or key_atom(kb) == ("val", ("const", "None"))):
+        # d.get(k) is None  is  k not in d  (for mappings that hold records, never None: the tables this code keeps)
+        other = kb if (ka == ("const", "None") or key_atom(ka) == ("val", ("const", "None"))) else ka
+        oa = key_atom(other) if _is_polykey(other) else None
+        if oa is not None and oa[0] == "mcall" and oa[1] == "get" and len(oa[3]) == 1 and not oa[4]:
+            return g_not(g_cmp("in", oa[3][0], oa[2], keys=True))
+        if oa is not None and oa[0] == "sub" and other in _GET_TERMS:
+            return g_not(g_cmp("in", oa[2], oa[1], keys=True))
     if op == "not in":
         return g_not(g_cmp("in", ka, kb, keys=True))
     if op == "in" and isinstance(kb, tuple) and kb and kb[0] == "list" and kb[1] and all(x == kb[1][0] for x in kb[1]):
@@ -2271,6 +2280,19 @@ class Frame:
         return args, kwargs
 
     def opaque_mcall(self, name, recv, args, kwargs, st, node):
+        if name == "update" and isinstance(recv, Poly) and ((len(args) == 1 and not kwargs and isinstance(args[0], ADict) and args[0].items and not args[0].doms) or (not args and kwargs and "**" not in kwargs)):
+            # mapping.update({k: v, ...}) / mapping.update(k=v, ...) is the sequence of stores mapping[k] = v
+            pairs = [(kk, vv) for kk, vv in args[0].items.values()] if args else [(k, v) for k, v in kwargs.items()]
+            for kk, vv in pairs:
+                st.env[("@sub", vkey(recv), vkey(kk))] = vv
+                self.I.events.append(Event("store_sub", [recv, kk, vv], {}, st.guards, node))
+            return None
+        if name == "get" and len(args) == 1 and not kwargs and isinstance(recv, Poly) and (recv.as_atom() or ("",))[0] in ("v", "attr", "sub"):
+            # d.get(k): the entry d[k] when there is one (and None, which `is None` tests, when there is not)
+            t = Poly.atom(("sub", vkey(recv), vkey(args[0])))
+            _GET_TERMS.add(t.key())
+            slot = ("@sub", vkey(recv), vkey(args[0]))
+            return st.env.get(slot, t)
         if name == "pop" and len(args) == 1 and not kwargs and isinstance(recv, Poly):
             ra = recv.as_atom()
             if ra is not None and ra[0] == "attr":
